@@ -106,4 +106,30 @@ theorem abs_eq (z x : Dec) (same : Bool) :
       { Decimal.set z x same with neg := (Gen.Facts.Abs (Decimal.set z x same).neg z.neg).zNeg } := by
   simp [Gen.Facts.Abs, Decimal.abs]
 
+/-! ### `SetInt64`, `SetUint64`, `NewDecimal`: what is handed to `setBits64` -/
+
+/-- `SetInt64(x)` calls `z.setBits64(x < 0, |x|, 0)` for every int64 `x`, `math.MinInt64` included (where `-u`
+    wraps to itself and `uint64(u)` is 2^63). -/
+theorem setInt64_args (x : Int) (h1 : -9223372036854775808 ≤ x) (h2 : x ≤ 9223372036854775807) :
+    Gen.Facts.SetInt64 x =
+      { outcome := 0, tail := 1, args := [if x < 0 then 1 else 0, (x.natAbs : Int), 0] } := by
+  unfold Gen.Facts.SetInt64 Gen.Facts.wrapI64
+  by_cases hx : x < 0
+  · simp [hx]; omega
+  · simp [hx]; omega
+
+theorem setUint64_args (x : Nat) :
+    Gen.Facts.SetUint64 x = { outcome := 0, tail := 1, args := [0, (x : Int), 0] } := by
+  simp [Gen.Facts.SetUint64]
+
+/-- `NewDecimal(x, exp)` calls `new(Decimal).setBits64(x < 0, |x|, int64(exp))`: with `setBits64_eq` (CGen) this is the
+    model's `newDecimal`. -/
+theorem newDecimal_args (x e : Int) (h1 : -9223372036854775808 ≤ x) (h2 : x ≤ 9223372036854775807) :
+    Gen.Facts.NewDecimal x e =
+      { outcome := 0, tail := 1, args := [if x < 0 then 1 else 0, (x.natAbs : Int), e] } := by
+  unfold Gen.Facts.NewDecimal Gen.Facts.wrapI64
+  by_cases hx : x < 0
+  · simp [hx]; omega
+  · simp [hx]; omega
+
 end Decimal.GenConv
